@@ -18,16 +18,29 @@ import (
 
 func main() {
 	log.SetOutput(io.Discard)
-	// (a) RangeFrac above 1: 7 keys, split factor 3, range covering all keys
+	// (a) RangeFrac above 1: split factor 3, 7 keys, a range that covers all keys
 	defer btree.SetSplit(btree.SetSplit(3))
+	p40 := strings.Repeat("p", 40)
+	keys := []string{"", "\x00", "a", "ab", p40 + "1", p40 + "2", p40 + "2x", "q", "zz"}
 	st := stor.HeapStor(8192)
 	st.Alloc(1)
 	b := btree.NewBuilder(st)
-	for i, k := range []string{"", "a", "ab", "p1", "p2", "q", "zz"} {
-		b.Add(k, uint64(i+1))
+	for _, i := range []int{0, 2, 3, 5, 6, 7, 8} {
+		b.Add(keys[i], uint64(i+1))
 	}
 	bt := b.Finish()
-	fmt.Println("(a) RangeFrac(\"\", \"zz\\x00\") =", bt.RangeFrac("", "zz\x00"), " (all 7 keys are inside the range)")
+	ib := &ixbuf.T{}
+	ib.Delete(keys[0], 1)
+	ib.Insert(keys[4], 5)
+	ib.Delete(keys[6], 7)
+	bt = bt.MergeAndSave(ib.Iter())
+	ib = &ixbuf.T{}
+	ib.Insert(keys[0], 1)
+	ib.Insert(keys[1], 2)
+	ib.Delete(keys[2], 3)
+	bt = bt.MergeAndSave(ib.Iter())
+	n, _, _ := bt.Check(nil)
+	fmt.Println("(a) RangeFrac(\"\", \"zz\\x00\") =", bt.RangeFrac("", "zz\x00"), " (all", n, "keys are inside the range)")
 
 	// (b) leaf node larger than maxNodeSize after a split
 	btree.SetSplit(100)
@@ -37,7 +50,7 @@ func main() {
 	b.Add(strings.Repeat("p", 4085), 1)
 	b.Add(strings.Repeat("q", 4085), 2)
 	bt = b.Finish() // one leaf of 8188 bytes
-	ib := &ixbuf.T{}
+	ib = &ixbuf.T{}
 	ib.Insert(strings.Repeat("r", 4096), 3) // a key of the maximum entry size
 	bt = bt.MergeAndSave(ib.Iter())
 	bt.Check(nil)
